@@ -531,12 +531,40 @@ fn process_seeds(ctx: &Ctx) {
     let (own, n) = fresh_thread(|| process_digest(0));
     let procs = if ctx.run.is_thorough() { 16 } else { 4 };
     let results = Mutex::new(BTreeSet::new());
-    par_for(procs, |k| match std::process::Command::new(&exe).args(["C10-child", "digest", &k.to_string()]).output() {
+    // every child differs from its siblings in something the result must not depend on: evaluation order, hash
+    // seeds, pid, start time and address-space layout in any case; and, by index, the environment (emptied, or
+    // enlarged by unrelated and by grex/locale/colour-looking variables), extra trailing program arguments, the
+    // working directory and the set of CPUs the process may run on
+    par_for(procs, |k| {
+        let mut cmd = std::process::Command::new(&exe);
+        let pad = "x".repeat(37 * (k + 1));
+        cmd.args(["C10-child", "digest", &k.to_string()]);
+        match k % 4 {
+            0 => {
+                cmd.env_clear();
+            }
+            1 => {
+                cmd.env("GREX_SEED", &pad).env("NO_COLOR", "1").env("LANG", "tr_TR.UTF-8").env("LC_ALL", "C").env("TZ", "Pacific/Kiritimati").env("RUST_LOG", "trace").env("COLUMNS", "7").arg(&pad);
+            }
+            2 => {
+                cmd.current_dir("/").env("HOME", "/nonexistent").env("TMPDIR", "/nonexistent").arg("--").arg(&pad).arg(&pad);
+            }
+            _ => {
+                // restrict the CPU set when `taskset` exists (available_parallelism follows the affinity mask)
+                if std::path::Path::new("/usr/bin/taskset").exists() {
+                    let mut t = std::process::Command::new("/usr/bin/taskset");
+                    t.args(["-c", "0"]).arg(&exe).args(["C10-child", "digest", &k.to_string()]);
+                    cmd = t;
+                }
+            }
+        }
+        match cmd.output() {
         Ok(o) if o.status.success() => {
             results.lock().unwrap().insert(String::from_utf8_lossy(&o.stdout).trim().to_string());
         }
         Ok(o) => ctx.run.machinery_error(format!("digest child failed: {:?}", o.status)),
         Err(e) => ctx.run.machinery_error(format!("cannot spawn digest child: {e}")),
+        }
     });
     let mut seen = results.into_inner().unwrap();
     seen.insert(format!("{own:016x}"));
@@ -544,7 +572,7 @@ fn process_seeds(ctx: &Ctx) {
     if seen.len() > 1 {
         ctx.run.violation(viol("C10", "determinism", "process- or history-sensitive (fresh hash seeds, different evaluation orders)".into(), &[], &Cfg::new(0), "", json!({"distinct_digests": seen.iter().collect::<Vec<_>>(), "builds_per_process": n})));
     }
-    ctx.run.space(json!({"engine": "separate processes (fresh per-process hash seeds), each evaluating the same family of builds in a different order (natural, reversed, settings-major, reverse-settings-major): order-independent digests compared across processes and with a fresh thread of this process", "processes": procs + 1, "builds_per_process": n, "distinct_digests": seen.len()}));
+    ctx.run.space(json!({"engine": "separate processes (fresh per-process hash seeds), each evaluating the same family of builds in a different order (natural, reversed, settings-major, reverse-settings-major): order-independent digests compared across processes and with a fresh thread of this process; the children also differ in environment (emptied / enlarged with locale-, colour- and grex-looking variables), trailing program arguments, working directory, HOME/TMPDIR and CPU set (taskset -c 0)", "processes": procs + 1, "builds_per_process": n, "distinct_digests": seen.len()}));
 }
 
 fn fresh_thread<T: Send + 'static, F: FnOnce() -> T + Send + 'static>(f: F) -> T {
